@@ -148,6 +148,7 @@ def parts_model_and_replay(ctx, cov, report, futs):
         reqs.append({"parts": [[real[c][0], real[c][1], rec["sizes"][c] * MIB] for c in classes],
                      "primary": 9 * MIB, "classes": classes})
     res = run_conf("thunks", reqs, timeout=600)
+    under, mismatch = 0, None
     for rec, q, got in zip(r.records, reqs, res):
         if "panic" in got or "error" in got:
             raise ToolError(f"aarch64_exec_parts failed on {q}: {got}")
@@ -170,10 +171,15 @@ def parts_model_and_replay(ctx, cov, report, futs):
                    "ThunksParts.tla rejects such an estimate (ServedBefore): a branch that needs a thunk is declared in range",
                    {"request": q, "got": got, "model": rec,
                     "how": "echo '<request>' | .cache/target-conf/release/wildconf thunks"})
+            under += 1
             break
-        if n != rec["N"] * MIB:
-            raise ToolError(f"compute_non_primary_text_size({q['parts']}) = {n}, model (Counted = all): {rec['N'] * MIB}: "
-                            "the specification no longer describes the function")
+        if n != rec["N"] * MIB and mismatch is None:
+            mismatch = (f"compute_non_primary_text_size({q['parts']}) = {n}, model (Counted = all): {rec['N'] * MIB}: "
+                        "the specification no longer describes the function")
+    if mismatch and not under:
+        # counting differently without ever falling below the bytes before the primary part does not
+        # contradict C11: the model has to follow the code
+        raise ToolError(mismatch)
     cov["parts_vectors_replayed"] = len(reqs)
     cov["samples"].append({"parts_record": r.records[len(r.records) // 2], "real": res[len(r.records) // 2]})
     return len(reqs)
